@@ -146,6 +146,10 @@ func spec_E() int            { panic("spec") }
 // assumes as TOK.
 func spec_sent(i int) Token { panic("spec") }
 
+// brace depth of the text s[from:to], read rune by rune the way the lexer reads it (utf8.DecodeRuneInString), starting at 1:
+// the opening brace of the action has been consumed when the scan starts
+func spec_bd(s string, from int, to int) int { panic("spec") }
+
 //@ ghostvar fetched int
 //@ ghostvar sent int
 //@ def TOKS(l *lexer, k int) = 0 <= spec_sent(k).EndAt && spec_sent(k).EndAt <= len(l.input) && (spec_sent(k).Kind == Charater ==> len(spec_sent(k).Value) >= 1)
@@ -266,6 +270,7 @@ func spec_sent(i int) Token { panic("spec") }
 //@ ensures [C13] wfL(l) && l.start == old(l.start)
 //@ ensures [C13] old(l.end) >= len(l.input) ==> r == eof && l.end == old(l.end) && l.width == 0
 //@ ensures [C13] old(l.end) < len(l.input) ==> r >= 0 && l.width >= 1 && l.end == old(l.end) + l.width
+//@ ensures old(l.end) < len(l.input) ==> l.width == rune_width(l.input[old(l.end):], 0) && r == rune_at(l.input[old(l.end):], 0)
 //@ ensures [C11] old(l.end) < len(l.input) ==> r == rune_at(l.input[old(l.end):], 0) && r <= 1114111 && !(55296 <= r && r <= 57343)
 //@ modifies l.end, l.width, l.prev, l.loc
 
@@ -385,13 +390,22 @@ func spec_sent(i int) Token { panic("spec") }
 //@ loop 1: end_of_body l.end > at_head(l.end) || sent > at_head(sent)
 //@ loop 1: terminates_assumed NOT terminating by itself at end of input: it is productive (proved: every iteration consumes input or hands an error token to the parser), the parser stops reading at the first error token, generation ends and the lexer goroutine stays blocked on its send
 
+// The action token is the text up to the brace that closes the action: the scan keeps the brace depth of everything read so
+// far - every rune counts, a brace is a brace wherever it stands - never continues below depth 1 and emits at depth 0
+// (C07, C19, C09: where an action ends decides which rules the grammar has)
+//@ axiom BD0: forall s string, a int :: spec_bd(s, a, a) == 1
+//@ axiom BDS: forall s string, a, p int :: {spec_bd(s, a, p)} a <= p && p < len(s) ==>
+//@     spec_bd(s, a, p + rune_width(s[p:], 0)) == spec_bd(s, a, p) + ite(rune_at(s[p:], 0) == 123, 1, ite(rune_at(s[p:], 0) == 125, 0 - 1, 0))
 //@ func ActionQuoteState
-//@ props C13
+//@ props C13 C07 C09 C19 C12
 //@ results next
+//@ use BD0, BDS
 //@ modifies l.start, l.startLoc, l.end, l.width, l.prev, l.loc, sent
 //@ requires wfL(l)
 //@ ensures [C13] stepOK(l, ActionQuoteState, next, old(l.end))
 //@ ensures [C13] sent >= old(sent) && allTOKS(l, old(sent))
+//@ loop 0: invariant [C07,C09,C19,C12] depth >= 1 && depth == spec_bd(l.input, old(l.end), l.end)
+//@ before_stmt [C07,C09,C19,C12] "l.emit(ActionQuote)" spec_bd(l.input, old(l.end), l.end) == 0
 //@ loop 0: invariant wfL(l) && l.end >= old(l.end)
 //@ loop 0: decreases len(l.input) - l.end
 //@ loop 0: invariant sent >= old(sent) && allTOKS(l, old(sent))
